@@ -1,4 +1,5 @@
 from algo_prop import make
+LEAN_EXTRA = ["PyXABProofs.Generated.FormulasC13"]
 ALGOS = ['VROOM']
 budget, explore, search, replay = make("C13", ALGOS, quick_per_algo=24, thorough_per_algo=300, salt=1300)
 RULE = ("the documented pull/receive loop on the real classes: algorithm x partition class (K 2..5) x dimension 1..3 x box shape x "
@@ -11,3 +12,10 @@ ASSUMPTIONS = ["theorems are about the Lean models of VROOM; they are tied to /r
                "object and cross-checked to 1e-9)",
                "score theorems hold for every linear order of scores and every formula record; IEEE rounding is not modelled"]
 TRUSTED = ["harness/algo_cases.py, harness/monitors.py, harness/common.py (instrumented partition subclasses, RNG patching)", "lean/PyXABModel/Drv (driver)"]
+
+
+def regenerate(tier):
+    """translator tie for the numeric formulas: the real methods are traced symbolically and re-proved equal to the
+    published formulas (Spec/Formulas.lean) over every field, on every run"""
+    import translate_formulas
+    return translate_formulas.generate("C13")
